@@ -35,8 +35,8 @@ func compressJobs(tier, prop string) []*Job {
 			for _, period := range periods {
 				for _, tail := range []int{0, 1, 5, 12, 13} {
 					for _, kind := range kinds {
-						if (kind != 0 || (n >= 300 && !thorough)) && tail > 5 {
-							continue // reused-state, HC and (quick) 300-byte runs: at most 5 free trailing bytes
+						if (kind != 0 || (n >= 300 && !thorough) || n > 300) && tail > 5 {
+							continue // reused-state, HC, (quick) 300-byte and 560-byte runs: at most 5 free trailing bytes
 						}
 						if kind != 0 && period == 4 {
 							continue
@@ -317,7 +317,7 @@ func compressBounds(prop string) func(string) []string {
 		}
 		return []string{
 			fmt.Sprintf("every source content (all bytes symbolic) at each length 0..%d for the fast compressor and 0..%d for the HC compressor (depths 0, 1, 2, 3, 512, 65537)", nf, nh),
-			"periodic family: sources of 24..300 (thorough ..560) bytes = a symbolic first period (1,2,3 bytes) repeated, plus 0..13 free symbolic bytes at the end (0..5 for reused-state and HC runs) (long matches, multi-byte length codes, matches running into the last 5/12 bytes)",
+			"periodic family: sources of 24..300 (thorough ..560) bytes = a symbolic first period (1,2,3 bytes) repeated, plus 0..13 free symbolic bytes at the end (0..5 for reused-state, HC and 560-byte runs) (long matches, multi-byte length codes, matches running into the last 5/12 bytes)",
 			"literal-run family: a literal run of exactly l concrete repeat-free bytes (l around 15 and 15+255: 13..17, 30, 269..271) followed by a match and 0/2 symbolic bytes, with destination lengths 0..5, l..l+8, n/2, bound-2..bound (C11)",
 			"history family (C14): the same object first compresses another (periodic) source into a destination that is too short (or large enough), then the source under test; compared with a fresh object",
 			"window family (C01): sources of 65.6 KB (concrete periodic filler) containing the same 8-byte window twice at a distance of 65534/65535/65536/65537 bytes, placed so that the scan probes the second copy; fast (fresh, reused) and HC; both decoders",
